@@ -129,6 +129,8 @@ Verdict(in, n, st, out) ==
    /\ (oru /\ WithinLookBack(in, n)) => st = "ok"
    /\ oru => st \in {"ok", "fail"}
    /\ (oru /\ st = "ok") => SortedStablePermutation(in, out)
+   \* "When it cannot sort it fails and says so": whatever the input, success means a sorted stream
+   /\ st = "ok" => Sorted(out)
 Conforms(in, n, st, out) == Survives(in, out) /\ Verdict(in, n, st, out)
 
 (* T(stream, n) = [st, out] is the tool as a function.  Sorting again changes
@@ -257,7 +259,11 @@ Process(S, p) ==
 RECURSIVE RunFrom(_, _)
 RunFrom(S, p) == IF p > Len(S.buf) THEN S ELSE RunFrom(Process(S, p), p + 1)
 Run(stream, n) == RunFrom(ImplInit(n, stream), 1)
-Outcome(S) == IF S.status = "run" THEN "ok" ELSE S.status
+\* the stream is verified once more after sorting ("fix: ovnisort: fail when the stream is still unsorted");
+\* Variant "nofinalcheck" is the pinned code, which exited 0 on e.g. an unclosed region
+Outcome(S) == IF S.status = "run"
+              THEN IF Variant # "code" \/ Sorted(S.buf) THEN "ok" ELSE "fail"   \* (the wrong variants are variants of the pinned code)
+              ELSE S.status
 Tool(stream, n) == LET S == Run(stream, n) IN [st |-> Outcome(S), out |-> S.buf]
 
 -----------------------------------------------------------------------------
